@@ -14,4 +14,5 @@ INVARIANT Inv
 INVARIANT NFold
 INVARIANT Order
 INVARIANT ExactByLength
+CONSTANT StdDropsDayCarry <- Off
 CHECK_DEADLOCK FALSE
